@@ -2,7 +2,17 @@
 """Regenerates MANIFEST.json. Claimed properties are those listed in CLAIMED below."""
 import json, sys
 
+NOTE = "Trusts go/types, go/ssa and the VTA call graph of x/tools v0.50.0 and the rule code in /verif/checker; assumes no unsafe/reflect/cgo/linkname in the module (checked on every run); integer arithmetic, buffer sizes and indices are not modelled; implicit flows are not tracked."
 CLAIMED = {
+ "C02": {"technique": "SSA dominance / must-pass-through analysis of decode and encode (R-CKSUM), typestate of error returns (R-ERRSTATE)",
+         "text": "Decides structurally, for every path at once: the block hash is recomputed after the inverse transform on the buffer it wrote, compared at full width with the header field, a mismatch always sets the task error, no clean exit bypasses the comparison while a hasher is set; on encode the hash of the original block (computed before Forward) is what is written, with the hasher's width; error returns of Reader.processBlock publish 0 bytes so no later Read can deliver a failed batch. Does not decide hash strength or byte equality.",
+         "note": NOTE},
+ "C06": {"technique": "CFG loop / callee analysis of the bitstream refill (R-REFILL)",
+         "text": "Decides the source-side clause only: the input bitstream refills its buffer completely (io.ReadFull/ReadAtLeast or a loop around the underlying Read that uses both count and error), which is the invariant every bulk read path relies on to decode identically from short-read sources. Does not decide Write/Read buffer-length independence (index arithmetic).",
+         "note": NOTE + " The rule accepts only the refill-completely design."},
+ "C07": {"technique": "SSA edge-dominance and all-paths analyses of the task functions, their deferred handlers and processBlock (R-TOKEN, R-CANCEL, R-POISON)",
+         "text": "Decides the protocol's code obligations for every schedule at once because they are dominance facts: every shared-stream call is dominated by the acquire edge (counter == id-1) and none follows the release; ids are consecutive; spin loops have a cancel exit and yield; the deferred handler turns panics into errors, cancels on error, never advances the counter without holding the token, always calls Done; Add precedes go, Wait joins every path and dominates result reads; a cancelled counter makes every later Writer call fail. Does not decide fairness/timing.",
+         "note": NOTE},
 }
 NOT_APPLICABLE = {
  "C16": "arithmetic post-condition of a rounding loop over all histograms; no clause is visible in code shape and no sound static argument (abstract interpretation over 256 symbolic counters) is in reach of the tools present; see DESIGN.md C16",
